@@ -1,6 +1,9 @@
 //! C11: includes expand in place.  Implementation under test: load::Loader::load on
 //! load::FakeFileSystem and, through load::new_loader (ProdFileSystem), on a real directory
-//! under the scratch area; plus report::process balances of the cut tree vs the uncut ledger.
+//! under the scratch area; plus every report of the cut tree vs the uncut ledger: the order of
+//! Ledger::transactions(), the register with running totals, balance, accounts through
+//! report::process / report::accounts on both file systems, and `okane balance`, `register`,
+//! `accounts`, `primitive flatten` on the tree on disk.
 use crate::cli::Scratch;
 use crate::coq::{self, Shards, Stats};
 use crate::prng::Rng;
@@ -27,6 +30,9 @@ type VPath = Vec<String>; // components below the virtual root "/"
 #[derive(Clone, Debug, PartialEq, Eq, Hash)]
 pub struct Tree {
     pub kind: u8,
+    /// how transactions are dated: 0 all on one day | 1 runs of three per day, non-decreasing in
+    /// ledger order | 2 a day derived from the id (out of order, several per day)
+    pub dmode: u8,
     pub files: Vec<(VPath, Vec<AEntry>)>,
     pub root: VPath, // may hold ".." components
     pub ledger: Vec<u64>,
@@ -36,17 +42,117 @@ fn vstr(p: &VPath) -> String {
     format!("/{}", p.join("/"))
 }
 
-/// text of entry number `pos` (1-based position in the uncut ledger) with id `id`
-fn txn_text(id: u64, pos: Option<usize>) -> String {
-    match pos {
-        Some(k) => format!("2024/01/01 e{}\n    A  1 USD = {} USD\n    B\n\n", id, k),
-        None => format!("2024/01/01 e{}\n    A  1 USD\n    B\n\n", id),
+/// What kind of entry an id stands for (id / 1000): 0 transaction | 1 `account` directive |
+/// 2 `commodity` directive | 3 `apply tag` | 4 `end apply tag` | 5 top-level comment.
+/// The model sees every one of them as an opaque `Ent id`.
+pub fn ekind(id: u64) -> u64 {
+    if id >= 9000 {
+        9
+    } else {
+        id / 1000
     }
 }
 
-fn file_text(es: &[AEntry], prefix: &str, ledger: &[u64]) -> String {
+const EKIND_NAMES: [&str; 6] = ["transaction", "account directive", "commodity directive", "apply tag", "end apply tag", "top-level comment"];
+
+/// name of the commodity declared by entry `id` (kind 2): letters only; one in five declares USD
+fn commodity_name(id: u64) -> String {
+    let n = id % 1000;
+    if n % 5 == 0 {
+        return "USD".into();
+    }
+    let mut s = String::from("K");
+    let mut k = n;
+    loop {
+        s.push((b'A' + (k % 26) as u8) as char);
+        k /= 26;
+        if k == 0 {
+            break;
+        }
+    }
+    s
+}
+
+fn commodity_id(name: &str) -> Option<u64> {
+    let rest = name.strip_prefix('K')?;
+    let mut n = 0u64;
+    for (i, c) in rest.chars().enumerate() {
+        if !c.is_ascii_uppercase() {
+            return None;
+        }
+        n += (c as u64 - 'A' as u64) * 26u64.pow(i as u32);
+    }
+    Some(2000 + n)
+}
+
+/// per tree: dating mode and, for every transaction that carries a running-balance assertion,
+/// the balance of account A after it in the uncut ledger
+pub struct Texts {
+    dmode: u8,
+    run: HashMap<u64, (u64, usize)>,
+}
+
+impl Texts {
+    fn of(t: &Tree) -> Texts {
+        let mut run = HashMap::new();
+        let mut sum = 0u64;
+        for (k, id) in asserted(t).iter().enumerate() {
+            if ekind(*id) == 0 {
+                sum += *id;
+                run.insert(*id, (sum, k));
+            }
+        }
+        Texts { dmode: t.dmode, run }
+    }
+}
+
+fn date_of(tx: &Texts, id: u64) -> String {
+    let day = match (tx.dmode, tx.run.get(&id)) {
+        (0, _) => 1,
+        (1, Some((_, k))) => 1 + (*k as u64) / 3,
+        _ => 1 + (id * 7 + 3) % 5,
+    };
+    format!("2024/01/{:02}", day)
+}
+
+/// text of the entry with id `id`: a transaction moves `id` USD into A (so that every
+/// transaction is recognisable in `register` and `Ledger::transactions()`), asserting A's running
+/// balance when the tree delivers every entry once
+fn entry_text(id: u64, tx: &Texts) -> String {
+    let n = id % 1000;
+    let blank = if n % 3 == 0 { "" } else { "\n" };
+    match ekind(id) {
+        0 => {
+            let head = if n % 4 == 1 { format!("{} * (c{}) e{}\n    ; :t{}:\n", date_of(tx, id), id, id, id) } else { format!("{} e{}\n", date_of(tx, id), id) };
+            let other = if n % 3 == 0 { "B".to_string() } else { format!("X{}:s", n % 5) };
+            match tx.run.get(&id) {
+                Some((sum, _)) => format!("{}    A  {} USD = {} USD\n    {}\n\n", head, id, sum, other),
+                None => format!("{}    A  {} USD\n    {}\n\n", head, id, other),
+            }
+        }
+        1 => format!(
+            "account X{}\n{}{}{}",
+            id,
+            if n % 2 == 0 { format!("    alias L{}\n", id) } else { String::new() },
+            if n % 4 < 2 { format!("    note n{}\n", id) } else { String::new() },
+            blank
+        ),
+        2 => {
+            let c = commodity_name(id);
+            format!("commodity {}\n{}{}", c, if n % 2 == 0 { format!("    format 1,000.00 {}\n", c) } else { String::new() }, blank)
+        }
+        3 => format!("apply tag t{}{}\n{}", id, if n % 2 == 0 { format!(": v{}", id) } else { String::new() }, blank),
+        4 => format!("end apply tag\n{}", blank),
+        _ => format!("; c{}\n{}\n", id, if n % 2 == 0 { "; second line\n" } else { "" }),
+    }
+}
+
+/// the text of a file and, for every entry in it, the line it starts on
+fn file_layout(es: &[AEntry], prefix: &str, tx: &Texts) -> (String, Vec<(usize, u64)>) {
     let mut s = String::new();
+    let mut lines = Vec::new();
     for e in es {
+        let line = 1 + s.bytes().filter(|b| *b == b'\n').count();
         match e {
             AEntry::Inc(w) => {
                 if w.starts_with('/') {
@@ -55,11 +161,18 @@ fn file_text(es: &[AEntry], prefix: &str, ledger: &[u64]) -> String {
                     s.push_str(&format!("include {}\n\n", w));
                 }
             }
-            AEntry::Ent(id) => s.push_str(&txn_text(*id, ledger.iter().position(|x| x == id).map(|k| k + 1))),
+            AEntry::Ent(id) => {
+                lines.push((line, *id));
+                s.push_str(&entry_text(*id, tx));
+            }
             AEntry::Garbage(_) => s.push_str("completely invalid file, should not be loaded\n"),
         }
     }
-    s
+    (s, lines)
+}
+
+fn file_text(es: &[AEntry], prefix: &str, tx: &Texts) -> String {
+    file_layout(es, prefix, tx).0
 }
 
 const ST_NAMES: [&str; 8] = ["Ok", "Err IO NotFound", "Err IO other", "Err Parse", "Err other", "panic", "process aborted or hung", "Err InvalidIncludeGlob"];
@@ -85,19 +198,55 @@ fn load_err_code(e: &load::LoadError) -> (u8, String) {
     }
 }
 
-fn run_loader<F: FileSystem>(loader: load::Loader<F>, index: &HashMap<String, usize>, strip: &str) -> LObs {
+/// the id an entry names by its content, where it names one
+fn content_id(entry: &syntax::plain::LedgerEntry) -> Option<u64> {
+    let num = |s: &str, p: char| -> Option<u64> {
+        let d: String = s.strip_prefix(p)?.chars().take_while(|c| c.is_ascii_digit()).collect();
+        d.parse().ok()
+    };
+    match entry {
+        syntax::LedgerEntry::Txn(t) => Some(payee_id(&t.payee)),
+        syntax::LedgerEntry::Comment(c) => num(c.0.trim_start(), 'c'),
+        syntax::LedgerEntry::ApplyTag(a) => num(&a.key, 't'),
+        syntax::LedgerEntry::Account(a) => num(&a.name, 'X'),
+        syntax::LedgerEntry::Commodity(c) => commodity_id(&c.name),
+        _ => None,
+    }
+}
+
+fn entry_kind_code(entry: &syntax::plain::LedgerEntry) -> u64 {
+    match entry {
+        syntax::LedgerEntry::Txn(_) => 0,
+        syntax::LedgerEntry::Account(_) => 1,
+        syntax::LedgerEntry::Commodity(_) => 2,
+        syntax::LedgerEntry::ApplyTag(_) => 3,
+        syntax::LedgerEntry::EndApplyTag => 4,
+        syntax::LedgerEntry::Comment(_) => 5,
+        syntax::LedgerEntry::Include(_) => 8,
+    }
+}
+
+/// Every delivered entry is identified by the file the callback names and the line its context
+/// starts on (`layout`: file index -> line -> id); the kind of the entry and, where the entry
+/// names its id (payee, account, commodity, tag key, comment text), that id must be the same:
+/// otherwise the trace records 99997.  99998 = nothing of the tree starts on that line.
+fn run_loader<F: FileSystem>(loader: load::Loader<F>, index: &HashMap<String, usize>, layout: &[HashMap<usize, u64>], strip: &str) -> LObs {
     let r = std::panic::catch_unwind(std::panic::AssertUnwindSafe(|| {
         let mut trace = Vec::new();
-        let res = loader.load(|path: &Path, _ctx, entry: &syntax::plain::LedgerEntry| {
-            if let syntax::LedgerEntry::Txn(t) = entry {
-                // Path equality is component-wise ("/a/./b" == "/a/b"), and ProdFileSystem hands
-                // back the uncanonicalised spelling when it is Path-equal to the canonical one
-                let s = path.components().collect::<PathBuf>().to_string_lossy().to_string();
-                let v = s.strip_prefix(strip).unwrap_or(&s).to_string();
-                trace.push((*index.get(&v).unwrap_or(&999), payee_id(&t.payee)));
-            } else {
-                trace.push((998, 99998));
-            }
+        let res = loader.load(|path: &Path, ctx, entry: &syntax::plain::LedgerEntry| {
+            // Path equality is component-wise ("/a/./b" == "/a/b"), and ProdFileSystem hands
+            // back the uncanonicalised spelling when it is Path-equal to the canonical one
+            let s = path.components().collect::<PathBuf>().to_string_lossy().to_string();
+            let v = s.strip_prefix(strip).unwrap_or(&s).to_string();
+            let fi = *index.get(&v).unwrap_or(&999);
+            let by_place = layout.get(fi).and_then(|m| m.get(&ctx.compute_line_start())).copied();
+            let id = match (by_place, content_id(entry)) {
+                (None, _) => 99998,
+                (Some(p), _) if ekind(p) != entry_kind_code(entry) => 99997,
+                (Some(p), Some(c)) if p != c => 99997,
+                (Some(p), _) => p,
+            };
+            trace.push((fi, id));
             Ok::<(), load::LoadError>(())
         });
         match res {
@@ -111,35 +260,74 @@ fn run_loader<F: FileSystem>(loader: load::Loader<F>, index: &HashMap<String, us
     r.unwrap_or(LObs { trace: vec![], st: 5, detail: "panic".into() })
 }
 
-fn balances<F: FileSystem>(loader: load::Loader<F>) -> Result<Vec<(String, String)>, String> {
+/// What the reports say about one ledger (a tree or the uncut file): the transactions in the
+/// order `Ledger::transactions()` holds them (each recognised by the amount it moves into A), and
+/// as text: their dates, the register (`Ledger::postings` with the running total, as the
+/// `register` command prints it), the balance and the account list.
+#[derive(Clone, Debug, PartialEq)]
+pub struct Rep {
+    order: Vec<u64>,
+    sections: Vec<(String, String)>,
+}
+
+fn lead_int(s: &str) -> u64 {
+    let d: String = s.chars().filter(|c| *c != ',').take_while(|c| c.is_ascii_digit()).collect();
+    d.parse().unwrap_or(99996)
+}
+
+fn reports<F: FileSystem>(mk: &dyn Fn() -> load::Loader<F>) -> Result<Rep, String> {
     let r = std::panic::catch_unwind(std::panic::AssertUnwindSafe(|| {
         let arena = bumpalo::Bump::new();
         let mut ctx = report::ReportContext::new(&arena);
-        let processed = report::process(&mut ctx, loader, &report::ProcessOptions::default());
-        let out = match processed {
-            Ok(mut ledger) => {
-                let n = ledger.transactions().count();
-                let bal = ledger
-                    .balance(&ctx, &report::query::BalanceQuery::default())
-                    .map(|b| b.into_owned().into_vec())
-                    .map_err(|e| format!("{:?}", e))?;
-                let mut v: Vec<(String, String)> =
-                    bal.iter()
-                        .map(|(a, am)| {
-                            let mut vs: Vec<String> =
-                                am.clone().into_values().into_iter().map(|(c, v)| format!("{} {}", v, c.as_str())).collect();
-                            vs.sort();
-                            (a.as_str().to_string(), vs.join(" + "))
-                        })
-                        .collect();
-                v.push(("#transactions".into(), n.to_string()));
-                Ok(v)
-            }
-            Err(e) => Err(format!("{:?}", e).chars().take(60).collect()),
+        let processed = report::process(&mut ctx, mk(), &report::ProcessOptions::default());
+        let mut ledger = processed.map_err(|e| format!("{:?}", e).chars().take(90).collect::<String>())?;
+        let mut order = Vec::new();
+        let mut dates = String::new();
+        for txn in ledger.transactions() {
+            order.push(txn.postings.first().map(|p| lead_int(&format!("{}", p.amount.as_inline_display()))).unwrap_or(99995));
+            dates.push_str(&format!("{} ", txn.date));
+        }
+        let mut reg = String::new();
+        let mut running = report::Amount::default();
+        for posting in ledger.postings(&ctx, &report::query::PostingQuery { account: None }) {
+            running += posting.amount.clone();
+            reg.push_str(&format!("{} {} {}\n", posting.account.as_str(), posting.amount.as_inline_display(), running.as_inline_display()));
+        }
+        let mut reg_a = String::new();
+        let mut running = report::Amount::default();
+        for posting in ledger.postings(&ctx, &report::query::PostingQuery { account: Some("A".into()) }) {
+            running += posting.amount.clone();
+            reg_a.push_str(&format!("{} {}\n", posting.amount.as_inline_display(), running.as_inline_display()));
+        }
+        let bal = ledger.balance(&ctx, &report::query::BalanceQuery::default()).map(|b| b.into_owned().into_vec()).map_err(|e| format!("{:?}", e))?;
+        let mut bs = String::new();
+        for (a, am) in bal.iter() {
+            bs.push_str(&format!("{}: {}\n", a.as_str(), am.as_inline_display()));
+        }
+        let arena2 = bumpalo::Bump::new();
+        let mut ctx2 = report::ReportContext::new(&arena2);
+        let accs = match report::accounts(&mut ctx2, mk()) {
+            Ok(v) => v.iter().map(|a| a.as_str().to_string()).collect::<Vec<_>>().join("\n"),
+            Err(e) => format!("error {:?}", e).chars().take(90).collect(),
         };
-        out
+        Ok(Rep { order, sections: vec![("dates of Ledger::transactions()".into(), dates), ("register".into(), reg), ("register A".into(), reg_a), ("balance".into(), bs), ("accounts".into(), accs)] })
     }));
     r.unwrap_or(Err("panic".into()))
+}
+
+/// the commands that read a ledger file, run in process on a real file
+fn cli_reports(path: &str, out: &mut Vec<(String, String)>) {
+    for cmd in [&["balance"][..], &["register"][..], &["register", "A"][..], &["accounts"][..], &["primitive", "flatten"][..]] {
+        let mut a: Vec<&str> = cmd.to_vec();
+        let acc = if a.len() == 2 && a[0] == "register" { a.pop() } else { None };
+        a.push(path);
+        if let Some(x) = acc {
+            a.push(x);
+        }
+        let res = crate::cli::run(&a);
+        let shown = if res.ok { res.stdout } else { format!("FAILED {}", res.stderr.chars().take(120).collect::<String>()) };
+        out.push((format!("okane {}", cmd.join(" ")), shown));
+    }
 }
 
 /// the ids whose transactions carry a running-balance assertion (their position in the uncut
@@ -154,9 +342,10 @@ fn asserted(t: &Tree) -> &[u64] {
 }
 
 fn fake_map(t: &Tree) -> HashMap<PathBuf, Vec<u8>> {
+    let tx = Texts::of(t);
     let mut m = HashMap::new();
     for (p, es) in &t.files {
-        m.insert(PathBuf::from(vstr(p)), file_text(es, "", asserted(t)).into_bytes());
+        m.insert(PathBuf::from(vstr(p)), file_text(es, "", &tx).into_bytes());
     }
     m
 }
@@ -166,12 +355,16 @@ pub struct Observed {
     real: LObs,
     bal: u8,
     bal_detail: String,
+    /// Ledger::transactions() of the uncut ledger, of the tree in memory, of the tree on disk
+    reg: Vec<Vec<u64>>,
 }
 
 pub fn observe(sc: &Scratch, seq: usize, t: &Tree) -> Observed {
+    let tx = Texts::of(t);
     let index: HashMap<String, usize> = t.files.iter().enumerate().map(|(i, (p, _))| (vstr(p), i)).collect();
+    let layout: Vec<HashMap<usize, u64>> = t.files.iter().map(|(_, es)| file_layout(es, "", &tx).1.into_iter().collect()).collect();
     // in-memory
-    let fake = run_loader(load::Loader::new(PathBuf::from(vstr(&t.root)), load::FakeFileSystem::from(fake_map(t))), &index, "");
+    let fake = run_loader(load::Loader::new(PathBuf::from(vstr(&t.root)), load::FakeFileSystem::from(fake_map(t))), &index, &layout, "");
     // real directory
     let base = sc.dir.join(format!("t{}", seq));
     let _ = std::fs::remove_dir_all(&base);
@@ -181,28 +374,60 @@ pub fn observe(sc: &Scratch, seq: usize, t: &Tree) -> Observed {
     for (p, es) in &t.files {
         let fp = base.join(p.join("/"));
         std::fs::create_dir_all(fp.parent().unwrap()).unwrap();
-        std::fs::write(&fp, file_text(es, &prefix, asserted(t))).unwrap();
+        std::fs::write(&fp, file_text(es, &prefix, &tx)).unwrap();
     }
     let real_root = PathBuf::from(format!("{}{}", prefix, vstr(&t.root)));
-    let real = run_loader(load::new_loader(real_root.clone()), &index, &prefix);
-    // report level: balances of the cut tree (both file systems) against the uncut ledger
-    let (bal, bal_detail) = if t.kind == 0 || t.kind == 4 {
-        let mut one = HashMap::new();
+    let real = run_loader(load::new_loader(real_root.clone()), &index, &layout, &prefix);
+    // report level: every report of the cut tree (both file systems) against the uncut ledger
+    let (bal, bal_detail, reg) = if t.kind == 0 || t.kind == 4 {
         let all: Vec<AEntry> = t.ledger.iter().map(|id| AEntry::Ent(*id)).collect();
-        one.insert(PathBuf::from("/r/all.ledger"), file_text(&all, "", asserted(t)).into_bytes());
-        let uncut = balances(load::Loader::new(PathBuf::from("/r/all.ledger"), load::FakeFileSystem::from(one)));
-        let bf = balances(load::Loader::new(PathBuf::from(vstr(&t.root)), load::FakeFileSystem::from(fake_map(t))));
-        let br = balances(load::new_loader(real_root));
-        if uncut.is_ok() && bf == uncut && br == uncut {
-            (1, String::new())
+        let uncut_text = file_text(&all, "", &tx);
+        let mk_uncut = || {
+            let mut one = HashMap::new();
+            one.insert(PathBuf::from("/r/all.ledger"), uncut_text.clone().into_bytes());
+            load::Loader::new(PathBuf::from("/r/all.ledger"), load::FakeFileSystem::from(one))
+        };
+        let uncut = reports(&mk_uncut);
+        let bf = reports(&|| load::Loader::new(PathBuf::from(vstr(&t.root)), load::FakeFileSystem::from(fake_map(t))));
+        let br = reports(&|| load::new_loader(real_root.clone()));
+        // the commands themselves, on the tree on disk and on the uncut ledger as one file on disk
+        let uncut_path = base.join("uncut-all.ledger");
+        std::fs::write(&uncut_path, &uncut_text).unwrap();
+        let mut cu = Vec::new();
+        cli_reports(&uncut_path.to_string_lossy(), &mut cu);
+        let mut ct = Vec::new();
+        cli_reports(&real_root.to_string_lossy(), &mut ct);
+        let reg: Vec<Vec<u64>> = [&uncut, &bf, &br].iter().map(|r| r.as_ref().map(|x| x.order.clone()).unwrap_or_else(|_| vec![99994])).collect();
+        let mut diff = String::new();
+        match (&uncut, &bf, &br) {
+            (Ok(u), Ok(f), Ok(r)) => {
+                for (k, (name, text)) in u.sections.iter().enumerate() {
+                    if f.sections[k].1 != *text || r.sections[k].1 != *text {
+                        diff = format!("{}: uncut {:?} / in-memory {:?} / real {:?}", name, text, f.sections[k].1, r.sections[k].1);
+                        break;
+                    }
+                }
+            }
+            _ => diff = format!("uncut {:?} / in-memory {:?} / real {:?}", uncut.as_ref().err(), bf.as_ref().err(), br.as_ref().err()),
+        }
+        if diff.is_empty() {
+            for (k, (name, text)) in cu.iter().enumerate() {
+                if ct[k].1 != *text || text.starts_with("FAILED") {
+                    diff = format!("{}: uncut {:?} / tree {:?}", name, text, ct[k].1);
+                    break;
+                }
+            }
+        }
+        if diff.is_empty() {
+            (1, String::new(), reg)
         } else {
-            (2, format!("uncut {:?} / in-memory {:?} / real {:?}", uncut, bf, br).chars().take(400).collect())
+            (2, diff.chars().take(600).collect(), reg)
         }
     } else {
-        (0, String::new())
+        (0, String::new(), vec![vec![], vec![], vec![]])
     };
     let _ = std::fs::remove_dir_all(&base);
-    Observed { fake, real, bal, bal_detail }
+    Observed { fake, real, bal, bal_detail, reg }
 }
 
 // ---------- Coq terms and JSON ----------
@@ -228,21 +453,22 @@ fn lobs_term(o: &LObs) -> String {
 
 fn term(t: &Tree, o: &Observed) -> String {
     format!(
-        "Case {} {} {} {} {} {} {}",
+        "Case {} {} {} {} {} {} {} {}",
         t.kind,
         coq::list(t.files.iter().map(|(p, es)| format!("({}, {})", path_term(p), coq::list(es.iter().map(entry_term))))),
         path_term(&t.root),
         coq::n_list(t.ledger.iter().copied()),
         lobs_term(&o.fake),
         lobs_term(&o.real),
-        o.bal
+        o.bal,
+        coq::list(o.reg.iter().map(|v| coq::n_list(v.iter().copied())))
     )
 }
 
 fn entry_json(e: &AEntry) -> Value {
     match e {
         AEntry::Inc(w) => json!({ "include": w }),
-        AEntry::Ent(id) => json!({ "entry": id }),
+        AEntry::Ent(id) => json!({ "entry": id, "is": EKIND_NAMES[(ekind(*id) as usize).min(5)] }),
         AEntry::Garbage(id) => json!({ "garbage": id }),
     }
 }
@@ -254,12 +480,15 @@ fn lobs_json(t: &Tree, o: &LObs) -> Value {
 }
 
 fn replay(t: &Tree, o: &Observed) -> Value {
-    let bal_s = ["not compared", "equal to the uncut ledger's", "DIFFERENT"][o.bal as usize];
-    json!({"property": "C11", "kind": t.kind, "root": vstr(&t.root), "ledger": t.ledger,
+    let bal_s = ["not compared", "equal to the uncut ledger's (Ledger::transactions/postings/balance, report::accounts, okane balance/register/accounts/primitive flatten)", "DIFFERENT"][o.bal as usize];
+    let tx = Texts::of(t);
+    json!({"property": "C11", "kind": t.kind, "dates": t.dmode, "root": vstr(&t.root), "ledger": t.ledger,
            "files": t.files.iter().map(|(p, es)| json!([vstr(p), es.iter().map(entry_json).collect::<Vec<_>>()])).collect::<Vec<_>>(),
+           "texts": t.files.iter().filter(|(_, es)| !es.iter().any(|e| matches!(e, AEntry::Garbage(_)))).map(|(p, es)| json!([vstr(p), file_text(es, "", &tx)])).collect::<Vec<_>>(),
            "impl": {"in_memory": lobs_json(t, &o.fake), "real_fs": lobs_json(t, &o.real),
-                    "balances": bal_s, "balances_detail": o.bal_detail},
-           "reproduce": "write the files (entry k = transaction with payee e<k>, garbage = unparsable text) and call load::Loader::load on root with FakeFileSystem and with new_loader"})
+                    "reports": bal_s, "reports_detail": o.bal_detail,
+                    "transactions_in_order": {"uncut": o.reg.first(), "tree_in_memory": o.reg.get(1), "tree_on_disk": o.reg.get(2)}},
+           "reproduce": "write the files of `texts` (an id below 1000 is a transaction with payee e<id> moving <id> USD into A; 1xxx account, 2xxx commodity, 3xxx apply tag, 4xxx end apply tag, 5xxx comment; garbage = unparsable text), call load::Loader::load on root with FakeFileSystem and with new_loader; okane balance / register / accounts / primitive flatten ROOT against the same entries in one file"})
 }
 
 fn from_json(v: &Value) -> Option<Tree> {
@@ -281,6 +510,7 @@ fn from_json(v: &Value) -> Option<Tree> {
     }
     Some(Tree {
         kind: v.get("kind")?.as_u64()? as u8,
+        dmode: v.get("dates").and_then(|x| x.as_u64()).unwrap_or(0) as u8,
         files,
         root: comps(v.get("root")?.as_str()?),
         ledger: v.get("ledger")?.as_array()?.iter().filter_map(|x| x.as_u64()).collect(),
@@ -288,7 +518,7 @@ fn from_json(v: &Value) -> Option<Tree> {
 }
 
 fn tree_json(t: &Tree) -> Value {
-    json!({"property": "C11", "kind": t.kind, "root": vstr(&t.root), "ledger": t.ledger,
+    json!({"property": "C11", "kind": t.kind, "dates": t.dmode, "root": vstr(&t.root), "ledger": t.ledger,
            "files": t.files.iter().map(|(p, es)| json!([vstr(p), es.iter().map(entry_json).collect::<Vec<_>>()])).collect::<Vec<_>>()})
 }
 
@@ -306,7 +536,7 @@ fn lobs_from(v: &Value) -> LObs {
 
 fn crashed(why: &str) -> Observed {
     let o = LObs { trace: vec![], st: 6, detail: why.to_string() };
-    Observed { fake: o.clone(), real: o, bal: 0, bal_detail: String::new() }
+    Observed { fake: o.clone(), real: o, bal: 0, bal_detail: String::new(), reg: vec![vec![], vec![], vec![]] }
 }
 
 /// child mode: `okv c11-child IN OUT` observes every tree of IN (a JSON array) and writes the observations
@@ -317,7 +547,7 @@ pub fn child(args: &[String]) {
     for (k, v) in trees.iter().enumerate() {
         let t = from_json(v).unwrap();
         let o = observe(&sc, k, &t);
-        out.push(json!({"fake": lobs_to(&o.fake), "real": lobs_to(&o.real), "bal": o.bal, "bal_detail": o.bal_detail}));
+        out.push(json!({"fake": lobs_to(&o.fake), "real": lobs_to(&o.real), "bal": o.bal, "bal_detail": o.bal_detail, "reg": o.reg}));
         // flushed after every case so that the parent can see how far a dying child got
         std::fs::write(&args[1], serde_json::to_string(&out).unwrap()).unwrap();
     }
@@ -364,7 +594,7 @@ fn run_child(dir: &Path, trees: &[&Tree], secs: u64) -> Option<Vec<Observed>> {
     if v.len() != trees.len() {
         return None;
     }
-    Some(v.iter().map(|o| Observed { fake: lobs_from(&o["fake"]), real: lobs_from(&o["real"]), bal: o["bal"].as_u64().unwrap_or(0) as u8, bal_detail: o["bal_detail"].as_str().unwrap_or("").to_string() }).collect())
+    Some(v.iter().map(|o| Observed { fake: lobs_from(&o["fake"]), real: lobs_from(&o["real"]), bal: o["bal"].as_u64().unwrap_or(0) as u8, bal_detail: o["bal_detail"].as_str().unwrap_or("").to_string(), reg: o["reg"].as_array().map(|a| a.iter().map(|l| l.as_array().map(|x| x.iter().filter_map(|n| n.as_u64()).collect()).unwrap_or_default()).collect()).unwrap_or_default() }).collect())
 }
 
 /// observations for a batch, in child processes: a stack overflow or a hang of the implementation
@@ -938,7 +1168,45 @@ fn gen_tree(r: &mut Rng) -> (Tree, BTreeSet<String>) {
     let n = r.below(11) as usize;
     let mut ids: Vec<u64> = (1..=40).collect();
     r.shuffle(&mut ids);
-    let ledger: Vec<u64> = ids[..n].to_vec();
+    let mut ledger: Vec<u64> = ids[..n].to_vec();
+    let mut pre_tags: BTreeSet<String> = BTreeSet::new();
+    // two ledgers in three hold every kind of entry the parser knows besides transactions:
+    // account and commodity directives, comments, and apply tag ... end apply tag blocks around
+    // stretches of the ledger (nested, side by side, now and then left open or closed twice:
+    // the directives are not checked against each other); the cuts fall anywhere, also inside blocks
+    if r.chance(2, 3) {
+        let mut ns: Vec<u64> = (1..=900).collect();
+        r.shuffle(&mut ns);
+        let mut next = 0usize;
+        let mut fresh = |kind: u64| -> u64 {
+            next += 1;
+            kind * 1000 + ns[next - 1]
+        };
+        for _ in 0..r.below(4) {
+            let kind = *r.pick(&[1u64, 2, 5][..]);
+            let at = r.below(ledger.len() as u64 + 1) as usize;
+            ledger.insert(at, fresh(kind));
+        }
+        for _ in 0..r.below(3) {
+            let i = r.below(ledger.len() as u64 + 1) as usize;
+            let j = i + r.below((ledger.len() - i) as u64 + 1) as usize;
+            match r.below(8) {
+                0 => {
+                    pre_tags.insert("entries:apply tag never closed".into());
+                    ledger.insert(i, fresh(3));
+                }
+                1 => {
+                    pre_tags.insert("entries:end apply tag without apply tag".into());
+                    ledger.insert(j, fresh(4));
+                }
+                _ => {
+                    ledger.insert(j, fresh(4));
+                    ledger.insert(i, fresh(3));
+                }
+            }
+        }
+    }
+    let dmode = [0u8, 0, 1, 2][r.below(4) as usize];
     let mut g = Gen { r, files: Vec::new(), used: BTreeSet::new(), uniq: 0, closed: BTreeSet::new(), garbage: 0, tags: BTreeSet::new() };
     let mut root: VPath = vec!["r".into()];
     for _ in 0..g.r.below(3) {
@@ -949,7 +1217,8 @@ fn gen_tree(r: &mut Rng) -> (Tree, BTreeSet<String>) {
     g.build(&ledger, root.clone(), 0);
     let mut tags = std::mem::take(&mut g.tags);
     let files = std::mem::take(&mut g.files);
-    let mut t = Tree { kind: 0, files, root: root.clone(), ledger };
+    tags.extend(pre_tags);
+    let mut t = Tree { kind: 0, dmode, files, root: root.clone(), ledger };
     // a root given in non-canonical form
     if root.len() > 2 && r.chance(1, 8) {
         let d = root[root.len() - 2].clone();
@@ -1076,6 +1345,15 @@ fn gen_shared_tree(r: &mut Rng) -> (Tree, BTreeSet<String>) {
     loop {
         let mut tags: BTreeSet<String> = BTreeSet::new();
         let mut next_id = 1u64;
+        // one entry in four is not a transaction (account, commodity, apply tag, end apply tag, comment)
+        let every_kind = r.chance(2, 3);
+        let dress = |r: &mut Rng, n: u64| -> u64 {
+            if every_kind && r.chance(1, 4) {
+                *r.pick(&[1u64, 2, 3, 4, 5][..]) * 1000 + n
+            } else {
+                n
+            }
+        };
         // leaves first, the root last
         let mut files: Vec<(VPath, Vec<AEntry>)> = Vec::new();
         let mut used: BTreeSet<VPath> = BTreeSet::new();
@@ -1098,7 +1376,7 @@ fn gen_shared_tree(r: &mut Rng) -> (Tree, BTreeSet<String>) {
             let es: Vec<AEntry> = (0..k)
                 .map(|_| {
                     next_id += 1;
-                    AEntry::Ent(next_id - 1)
+                    AEntry::Ent(dress(r, next_id - 1))
                 })
                 .collect();
             pool_files.push(files.len());
@@ -1152,7 +1430,7 @@ fn gen_shared_tree(r: &mut Rng) -> (Tree, BTreeSet<String>) {
             for _ in 0..items {
                 match r.below(10) {
                     0..=2 => {
-                        content.push(AEntry::Ent(next_id));
+                        content.push(AEntry::Ent(dress(r, next_id)));
                         next_id += 1;
                     }
                     3 | 4 => {
@@ -1272,7 +1550,8 @@ fn gen_shared_tree(r: &mut Rng) -> (Tree, BTreeSet<String>) {
             root = nr;
             tags.insert("root:non-canonical".into());
         }
-        return (Tree { kind: 4, files, root, ledger }, tags);
+        let dmode = [0u8, 0, 2][r.below(3) as usize];
+        return (Tree { kind: 4, dmode, files, root, ledger }, tags);
     }
 }
 
@@ -1312,6 +1591,59 @@ fn record(sh: &mut Shards, st: &mut Stats, t: &Tree, o: &Observed, tags: &BTreeS
     for tag in tags {
         st.count(&format!("trees with {}", tag));
     }
+    let kinds: BTreeSet<u64> = t.ledger.iter().map(|id| ekind(*id)).collect();
+    for k in &kinds {
+        st.count(&format!("ledgers with entries of kind:{}", EKIND_NAMES[(*k as usize).min(5)]));
+    }
+    if kinds.len() >= 4 {
+        st.count("ledgers with four or more kinds of entries");
+    }
+    st.count(&format!("dates:{}", ["all transactions on one day", "runs of three per day in ledger order", "day derived from the id (out of date order, several per day)"][t.dmode.min(2) as usize]));
+    let mut split = false;
+    let mut sameday_files = false;
+    for (_, es) in t.files.iter().filter(|(_, es)| !es.iter().any(|e| matches!(e, AEntry::Garbage(_)))) {
+        let mut depth = 0i64;
+        for e in es {
+            if let AEntry::Ent(id) = e {
+                match ekind(*id) {
+                    3 => depth += 1,
+                    4 => {
+                        depth -= 1;
+                        if depth < 0 {
+                            split = true;
+                        }
+                    }
+                    _ => {}
+                }
+            }
+        }
+        if depth != 0 {
+            split = true;
+        }
+    }
+    if split {
+        st.count("trees where a cut separates an apply tag from its end apply tag (some file is not balanced on its own)");
+    }
+    {
+        // same-day transactions in different files
+        let tx = Texts::of(t);
+        let mut by_day: HashMap<String, BTreeSet<usize>> = HashMap::new();
+        for (fi, (_, es)) in t.files.iter().enumerate() {
+            for e in es {
+                if let AEntry::Ent(id) = e {
+                    if ekind(*id) == 0 {
+                        by_day.entry(date_of(&tx, *id)).or_default().insert(fi);
+                    }
+                }
+            }
+        }
+        if by_day.values().any(|fs| fs.len() >= 2) {
+            sameday_files = true;
+        }
+    }
+    if sameday_files {
+        st.count("trees with transactions of one day in different files");
+    }
     let nfiles = t.files.iter().filter(|(_, es)| !es.iter().any(|e| matches!(e, AEntry::Garbage(_)))).count();
     st.count(&format!("files (without decoys):{}", if nfiles >= 8 { "8+".to_string() } else { nfiles.to_string() }));
     st.add("decoy files (dot-files, deeper levels, other suffixes)", (t.files.len() - nfiles) as u64);
@@ -1333,7 +1665,7 @@ pub fn run(o: &Opts) {
         o.shards,
         "From Coq Require Import List NArith.\nFrom Okv Require Import Model.Glob Model.Load Run.Classify_C11.\nImport ListNotations.\nOpen Scope N_scope.",
     );
-    st.rule = "a case = a ledger of 0-10 identifiable transactions (running balance assertions make the order matter) cut at entry boundaries into a random tree of files (depth <= 4; sub-directories, parent and sibling directories through .., ./, up-and-back and absolute written paths; literal includes; glob includes *.ledger, prefix*.ledger, ?.ledger, dir*/f.ledger and */f.ledger, and character classes: 202[345].ledger, 20[12][0-9].ledger, q[1-4].ledger, y[a-c][!0-9].ledger, [!a]*.ledger, *[!0-9].ledger, [st]*/f.ledger, d[0-9]/f.ledger, and the spellings []x], [a-], [!]], [*?], x[.-]y, [.a]b, []-a], [é日] — whose matches are assigned consecutive chunks in PathBuf order; decoy files that must not match: dot-files, deeper levels, other suffixes, characters just outside a class or range, the other letter case, a file named like the pattern itself; names with '.', '-', ' ', '+' and non-ASCII letters so that component order differs from string order), one sixth of them with one include changed to match nothing (also a class that matches nothing, an empty range), one in ten of the rest with one include given a `[` that is never closed (LoadError::InvalidIncludeGlob), one in twenty with an include back to the root (a cycle: LoadError::IncludeCycle); literal includes of dot-files (.x.ledger) and through dot directories (.cfg/x.ledger), never with a wildcard in the dotted component, and directories where `*.ledger` must skip a dot-file that a literal include beside it loads; plus trees (kind 4, a quarter of the run) in which one file is loaded twice or more — from sibling files, from the same file, nested — through `../common.ledger`, `./x.ledger`, `sub/../x.ledger`, `.././x`, `../own-dir/x`, absolute and plain spellings and through a wildcard over a shared directory, the expected delivery computed from the construction; loaded in child processes with Loader::load on FakeFileSystem and with new_loader on a real directory, plus report::process balances of the tree vs the uncut ledger; non-trivial = at least 2 loaded files and at least one glob (wildcard or class) or .. include; distinct by the whole tree".into();
+    st.rule = "a case = a ledger of 0-10 identifiable transactions (each moves its own amount, so it is recognisable in the register; running balance assertions make the booking order matter; all on one day, in runs of three per day, or on days out of order) and, in two ledgers of three, every other kind of entry the parser knows (account and commodity directives with and without sub-lines and a blank line after them, top-level comments, apply tag ... end apply tag blocks around stretches of the ledger, nested or side by side, one in four left open or closed without an opening) cut at entry boundaries - also inside apply-tag blocks - into a random tree of files (depth <= 4; sub-directories, parent and sibling directories through .., ./, up-and-back and absolute written paths; literal includes; glob includes *.ledger, prefix*.ledger, ?.ledger, dir*/f.ledger and */f.ledger, and character classes: 202[345].ledger, 20[12][0-9].ledger, q[1-4].ledger, y[a-c][!0-9].ledger, [!a]*.ledger, *[!0-9].ledger, [st]*/f.ledger, d[0-9]/f.ledger, and the spellings []x], [a-], [!]], [*?], x[.-]y, [.a]b, []-a], [é日] — whose matches are assigned consecutive chunks in PathBuf order; decoy files that must not match: dot-files, deeper levels, other suffixes, characters just outside a class or range, the other letter case, a file named like the pattern itself; names with '.', '-', ' ', '+' and non-ASCII letters so that component order differs from string order), one sixth of them with one include changed to match nothing (also a class that matches nothing, an empty range), one in ten of the rest with one include given a `[` that is never closed (LoadError::InvalidIncludeGlob), one in twenty with an include back to the root (a cycle: LoadError::IncludeCycle); literal includes of dot-files (.x.ledger) and through dot directories (.cfg/x.ledger), never with a wildcard in the dotted component, and directories where `*.ledger` must skip a dot-file that a literal include beside it loads; plus trees (kind 4, a quarter of the run) in which one file is loaded twice or more — from sibling files, from the same file, nested — through `../common.ledger`, `./x.ledger`, `sub/../x.ledger`, `.././x`, `../own-dir/x`, absolute and plain spellings and through a wildcard over a shared directory, the expected delivery computed from the construction; loaded in child processes with Loader::load on FakeFileSystem and with new_loader on a real directory (every delivered entry identified by file, starting line, kind and the id it names), plus every report of the tree vs the uncut ledger: the sequence of Ledger::transactions() (compared inside Coq with the uncut ledger's and with the delivery order), their dates, the register of all postings and of one account with running totals, balance and account list through report::process / report::accounts on both file systems, and okane balance / register / register A / accounts / primitive flatten on the tree on disk against the same entries in one file on disk; non-trivial = at least 2 loaded files and at least one glob (wildcard or class) or .. include; distinct by the whole tree".into();
     st.assumptions.push("patterns use literals, *, ? and character classes [...] / [!...] (no **); no class lists the separator '/' and no pattern component that holds a wildcard or a class begins with a literal dot (on both the real file system differs from the in-memory one, see the level note); . and .. components occur only before the first wildcard component and never climb above the tree's top directory; no pattern's last component matches a directory; no symlinks, valid UTF-8 names and contents".into());
     let sc = Scratch::new("c11");
     let mut q: Vec<Pending> = Vec::new();
